@@ -659,3 +659,22 @@ def inplace_param_sites(fnode):
                 if k.arg == 'out' and isinstance(k.value, ast.Name) and k.value.id in aliases:
                     out.append(n)
     return out
+
+
+def bind_args(call, callee, skip_self=True):
+    """{callee parameter name: argument expression} for a plain call (no * / ** arguments;
+    returns None when the call uses them or does not fit the signature)."""
+    params = [a.arg for a in callee.node.args.posonlyargs + callee.node.args.args]
+    if skip_self and params and params[0] in ('self', 'cls'):
+        params = params[1:]
+    kwonly = [a.arg for a in callee.node.args.kwonlyargs]
+    out = {}
+    for i, a in enumerate(call.args):
+        if isinstance(a, ast.Starred) or i >= len(params):
+            return None
+        out[params[i]] = a
+    for k in call.keywords:
+        if k.arg is None or (k.arg not in params and k.arg not in kwonly) or k.arg in out:
+            return None
+        out[k.arg] = k.value
+    return out
